@@ -2,6 +2,7 @@ pub mod c01;
 pub mod c02;
 pub mod c06;
 pub mod c10;
+pub mod c12;
 pub mod c14;
 pub mod c15;
 pub mod c19;
@@ -14,6 +15,7 @@ pub fn dispatch(prop: &str, rc: &mut RunCtx) -> bool {
         "C02" => c02::run(rc),
         "C06" => c06::run(rc),
         "C10" => c10::run(rc),
+        "C12" => c12::run(rc),
         "C14" => c14::run(rc),
         "C15" => c15::run(rc),
         "C19" => c19::run(rc),
